@@ -155,8 +155,9 @@ func negotiateFeatures(ctx context.Context, s *Session, first, ws bool, features
 		// secure connection, try it anyways to prevent downgrade attacks per RFC
 		// 7590.
 		// An informational feature in the StartTLS namespace (one without a
-		// Negotiate function) cannot be attempted.
-		doStartTLS = first && !advertisedStartTLS && s.State()&Secure != Secure && doStartTLS && startTLS.Negotiate != nil
+		// Negotiate function) cannot be attempted, and one whose prerequisites do
+		// not hold must not be.
+		doStartTLS = first && !advertisedStartTLS && s.State()&Secure != Secure && doStartTLS && startTLS.Negotiate != nil && startTLS.allowed(s.state)
 
 		switch {
 		case doStartTLS:
